@@ -739,6 +739,17 @@ class Interp:
                     return C(x * y)
             except Exception:
                 pass
+        # arithmetic identities with the literal integers 0 and 1 (x + 0, x - 0, x * 1, x / 1): the same values
+        def _lit(t, v):
+            return is_const(t) and isinstance(t[1], int) and not isinstance(t[1], bool) and t[1] == v
+        if op in ("+", "-") and _lit(b, 0) and not is_const(a):
+            return a
+        if op == "+" and _lit(a, 0) and not is_const(b):
+            return b
+        if op in ("*", "/") and _lit(b, 1) and not is_const(a):
+            return a
+        if op == "*" and _lit(a, 1) and not is_const(b):
+            return b
         if op in ("+", "*", "&", "|", "^") and self._commutes(op, a, b):
             # canonical operand order for commutative operators: constants last, otherwise by rendering
             ka, kb = (is_const(a), repr(a)), (is_const(b), repr(b))
